@@ -97,16 +97,16 @@ class QWorld(World):
 class Sim:
     """one RawQuicLayer(force_raw=True) in a QWorld, driven action by action"""
 
-    def __init__(self):
+    def __init__(self, unconnected=False):
         global _OPTS
         if _OPTS is None: _OPTS = make_context("udp").options
         ctx = make_context("udp", opts=_OPTS)
         ctx.server = connection.Server(address=("192.0.2.9", 4433), transport_protocol="udp")
-        ctx.server.timestamp_start = 1.0
+        if not unconnected: ctx.server.timestamp_start = 1.0
         self.lay = lay = raw.RawQuicLayer(ctx, force_raw=True)
         self.w = w = QWorld(lay, ctx, on_hook=lambda w, h: "defer" if isinstance(h, LAYER_HOOKS) else None,
                             on_connect=lambda w, c: "defer")
-        w.add_open_server(ctx.server)
+        if not unconnected: w.add_open_server(ctx.server)
         self.conn = {1: ctx.client, 0: ctx.server}
         w.next_in = "start"
         w.start()
@@ -147,20 +147,27 @@ class Sim:
             w.deliver(events.DataReceived(conn[fc], unhx(data)))
         elif k == "hook":
             self.do_hook(act[1], act[2])
+        elif k == "connectq":
+            # reply to the layer's OWN OpenConnection (case kind "unconnected")
+            if w.deferred_connects:
+                w.next_in = f"connectq {act[1]}"
+                w.finish_connect(w.deferred_connects[0], "boom" if act[1] else None)
         else:
             raise ValueError(act)
 
     def finish(self):
         w = self.w
         for _ in range(500):
-            if not w.deferred_hooks: break
-            self.do_hook(0, None)
+            if w.deferred_connects:
+                w.next_in = "connectq 0"; w.finish_connect(w.deferred_connects[0], None)
+            elif w.deferred_hooks: self.do_hook(0, None)
+            else: break
         return {"steps": w.log, "errors": [e[:2] for e in w.errors if e[0] != "AssertionError"],
                 "asserts": sum(1 for e in w.errors if e[0] == "AssertionError")}
 
 
 def run_schedule(case):
-    sim = Sim()
+    sim = Sim(unconnected=bool(case.get("unconnected")))
     for act in case["sched"]:
         sim.act(act)
     return sim.finish()
@@ -171,6 +178,7 @@ def _drain_only(self):
     while self.queue:
         kind, x = self.queue.popleft()
         if kind == "event": self._handle(x)
+        elif kind == "open": self._open(x)
         elif kind == "hook":
             r = self.on_hook(self, x)
             if r == "defer": self.deferred_hooks.append(x)
@@ -180,6 +188,31 @@ def _drain_only(self):
 
 QWorld.queue_drain_only = _drain_only
 QWorld.drain = _drain_only      # QUIC: no socket-level teardown in this check
+
+
+def replay_hits_assertion(buffered):
+    """case kind `unconnected`: do the events buffered while the layer was connecting (in order, all on fresh state) run
+    into one of the two excused assertions when they are replayed?  Computed from the inputs alone."""
+    known_c, known_s, unopened = set(), set(), set()
+    nxt = {1: 1, 3: 3}                     # client-side ids for server-initiated bidi / uni streams
+    closed = set()
+    for f in buffered:
+        if closed == {"0", "1"}: return False          # both connections gone: the layer is done, nothing more is looked at
+        if f[0] in ("sd", "sr"):
+            fc, sid = int(f[1]), int(f[2])
+            if fc:
+                if sid in known_c: continue
+                if not client_init(sid): return True   # registration guard
+                known_c.add(sid); unopened.add(sid)
+            else:
+                if sid in known_s: continue
+                if client_init(sid): return True       # registration guard
+                cls = 3 if uni(sid) else 1
+                known_c.add(nxt[cls]); nxt[cls] += 4; known_s.add(sid)
+        elif f[0] == "cc":
+            if f[1] == "0" and unopened: return True   # close_stream_layer on a server side that was never opened
+            closed.add(f[1])
+    return False
 
 
 def uni(i): return bool(i & 2)
@@ -196,6 +229,8 @@ class Check(PropertyCheck):
                   "stream_commands_address_registered_streams, and their whole-history forms by induction over the event list: "
                   "pairing_is_stable_forever, signals_reach_only_pair_forever (the commands an event produced are addressed to "
                   "the pair that is registered under the event's id in EVERY later state), history_addresses_registered_streams, and "
+                  "allocated_ids_unique_with_own_connect / no_data_or_reset_after_fin_or_reset_with_own_connect / "
+                  "failed_own_connect_ends_layer (the same including the layer's own connect phase), open_connection_pairs_the_stream, "
                   "no_data_or_reset_after_fin_or_reset (in the complete command history of any event sequence nothing is sent on a "
                   "(connection, stream id) after the FIN or reset mitmproxy sent on it - the CAN_WRITE guard of event_to_child, "
                   "carried through close_stream_layer, the reset preservation and the connection-close fan-out); "
@@ -204,13 +239,17 @@ class Check(PropertyCheck):
                   "and next_stream_id.")
     level_note = ("modelled: _handle_event stream registration, event_to_child translation (SendData/CloseConnection/"
                   "CloseTcpConnection/OpenConnection), close_stream_layer, reset preservation, connection-close fan-out incl. the "
-                  "AssertionError paths (registration guard; close_stream_layer on a server side that was never opened). Not "
-                  "modelled: RawQuicLayer's own OpenConnection on Start (server taken as connected), force_raw=False (NextLayer "
-                  "protocol detection), aioquic itself. Re-entrant ConnectionClosed into a child whose generator is suspended is "
+                  "AssertionError paths (registration guard; close_stream_layer on a server side that was never opened), and the "
+                  "layer's own OpenConnection on Start with Layer's pause queue and replay (case kind `unconnected`; an assertion during "
+                  "the replay leaves the rest of the queue unprocessed for good - modelled and tied). Not modelled: force_raw=False "
+                  "(NextLayer protocol detection), aioquic itself. Re-entrant ConnectionClosed into a child whose generator is suspended is "
                   "delivered after the child's step in the model (indistinguishable for TCPLayer, which is already `done`). "
                   "Oracle excuses (each with a doctored counter-example in known_selftest()): AssertionError is accepted only for (a) a "
                   "stream event on an id unknown on that side whose initiator bit belongs to the other peer (registration guard) and "
-                  "(b) QuicConnectionClosed from the server while some registered stream has no server side yet; events are allowed "
+                  "(b) QuicConnectionClosed from the server while some registered stream has no server side yet, (c) case kind "
+                  "`unconnected` only: the same two assertions hit while the buffered events are replayed (decided from the buffered "
+                  "inputs alone), and events delivered between Start and the reply to the layer's OpenConnection need not be registered "
+                  "yet / are ignored after a failed connect; events are allowed "
                   "to be ignored only once a QuicConnectionClosed arrived while the other QUIC connection was already closed. "
                   "Expected values are input-derived: the id a peer used must be the registered id; a pair once seen must persist "
                   "unchanged in every later step (this clause catches seeds c30-1/2/3 directly); the owner of a completed hook is the "
@@ -282,8 +321,25 @@ class Check(PropertyCheck):
             for t in itertools.product(self.ALPHA, repeat=n):
                 yield {"sched": [list(a) for a in t]}
 
+    def unconnected_cases(self, rng, n):
+        """case kind `unconnected`: the layer has to open the server connection itself on Start; stream events, hook
+        completions and connection closes arrive while it waits, the reply (ok / error) comes at a random point"""
+        for _ in range(n):
+            base = self.random_case(rng)["sched"]
+            k = rng.randint(0, min(len(base), 6))
+            # the server connection cannot report its close before it exists
+            pre = [a for a in base[:k] if not (a[0] == "cc" and a[1] == 0)]
+            yield {"unconnected": 1, "sched": pre + [["connectq", 1 if rng.chance(0.2) else 0]] + base[k:]}
+
     def generate(self, rng, tier):
         yield from self.enum(2 if tier == "quick" else 4)
+        early = [a for a in self.ALPHA if not (a[0] == "cc" and a[1] == 0)]
+        for a in early:
+            for b in self.ALPHA:
+                for err in (0, 1):
+                    yield {"unconnected": 1, "sched": [list(a), ["connectq", err], list(b)]}
+                    if b in early: yield {"unconnected": 1, "sched": [list(a), list(b), ["connectq", err]]}
+        yield from self.unconnected_cases(rng, 300 if tier == "quick" else 5000)
         while True:
             yield self.random_case(rng)
 
@@ -301,6 +357,8 @@ class Check(PropertyCheck):
         seen_c = set()           # client ids that have been registered at some point
         closed_sides = set()     # QUIC connections that are closed ("1" client, "0" server)
         layer_done = False
+        connecting = False
+        buffered = []            # inputs delivered while the layer waits for its own OpenConnection
         for st in obs["steps"]:
             parts = st["in"].split()
             pairs = st["pairs"]
@@ -332,7 +390,15 @@ class Check(PropertyCheck):
             if parts[0] == "cc":
                 if ("0" if parts[1] == "1" else "1") in closed_sides: layer_done = True
                 closed_sides.add(parts[1])
-            if parts[0] in ("sd", "sr") and "X" not in st["out"] and not layer_done:
+            # case kind "unconnected": between Start and the reply to the layer's own OpenConnection every event is only
+            # buffered (Layer pause queue); a failed connect ends the layer (input-derived: case flag + delivered inputs)
+            if case.get("unconnected"):
+                if parts[0] == "start": connecting = True
+                elif parts[0] == "connectq":
+                    connecting = False
+                    if parts[1] == "1": layer_done = True
+                elif connecting: buffered.append(parts)
+            if parts[0] in ("sd", "sr") and "X" not in st["out"] and not layer_done and not connecting:
                 fc, sid = int(parts[1]), int(parts[2])
                 if fc and sid not in now: fails.append(f"{st['in']}: no layer registered under client id {sid}")
                 if not fc and sid not in now.values(): fails.append(f"{st['in']}: no layer registered under server id {sid}")
@@ -346,6 +412,8 @@ class Check(PropertyCheck):
                     ok = unknown and (client_init(sid) != bool(fc))          # registration guard: wrong initiator for that peer
                 elif parts[0] == "cc" and parts[1] == "0":
                     ok = any(s is None for _, s in prev_pairs)                # close_stream_layer on a server side never opened
+                elif parts[0] == "connectq" and parts[1] == "0" and case.get("unconnected"):
+                    ok = replay_hits_assertion(buffered)                      # the same two assertions, hit while replaying
                 if not ok: fails.append(f"{st['in']}: AssertionError that neither assertion of the property's domain explains")
             # "data, end-of-stream and reset signals reach only the paired stream"
             pm = now
@@ -405,6 +473,24 @@ class Check(PropertyCheck):
             "guard assertion": base + [step("sd 1 5 62 0", ["X"], [(0, 0)])],
             "unopened server side on server close": base[:2] + [step("cc 0 0", ["Q:c:0", "X"], [(0, None)])],
         }
+        ucase = {"sched": [], "unconnected": 1}
+        ubase = [step("start", ["O"], [])]
+        if not self.oracle(ucase, {"steps": ubase + [step("connectq 0", ["H:dg:start"], []), step("sd 1 0 61 0", [], [])],
+                                   "errors": [], "asserts": 0}):
+            raise AssertionError("known_selftest: event ignored after a SUCCESSFUL connect must be rejected")
+        for label, steps in {"buffered while connecting": ubase + [step("sd 1 0 61 0", [], [])],
+                             "ignored after failed connect": ubase + [step("connectq 1", ["C:c:f"], []), step("sd 1 0 61 0", [], [])]}.items():
+            f = self.oracle(ucase, {"steps": steps, "errors": [], "asserts": 0})
+            if f: raise AssertionError(f"known_selftest: oracle rejects legitimate observation '{label}': {f[:2]}")
+        if not self.oracle(ucase, {"steps": ubase + [step("sd 1 0 61 0", [], []), step("connectq 0", ["H:dg:start", "X"], [])],
+                                   "errors": [], "asserts": 0}):
+            raise AssertionError("known_selftest: X while replaying harmless buffered events must be rejected")
+        if self.oracle(ucase, {"steps": ubase + [step("sd 0 0 62 0", [], []), step("connectq 0", ["H:dg:start", "X"], [])],
+                               "errors": [], "asserts": 0}):
+            raise AssertionError("known_selftest: X for a buffered wrong-initiator id must be accepted")
+        if not self.oracle({"sched": []}, {"steps": [step("start", ["H:dg:start"], []), step("sd 1 0 61 0", [], [])],
+                                           "errors": [], "asserts": 0}):
+            raise AssertionError("known_selftest: the connecting excuse must not apply to pre-connected cases")
         for label, steps in must_fail.items():
             if not self.oracle({"sched": []}, {"steps": steps, "errors": [], "asserts": 0}):
                 raise AssertionError(f"known_selftest: oracle accepts doctored observation '{label}'")
@@ -416,7 +502,7 @@ class Check(PropertyCheck):
     def model_lines(self, case):
         last = getattr(self, "_last", None)
         obs = last[1] if last and last[0] is case else run_schedule(case)
-        lines = ["reset"]
+        lines = ["resetq" if case.get("unconnected") else "reset"]
         for st in obs["steps"]:
             f = st["in"].split()
             lines.append(f"hookidx {f[3]} {f[2]}" if f[0] == "hook" else st["in"])
@@ -437,7 +523,7 @@ class Check(PropertyCheck):
 
     def classify(self, case, obs):
         if not any(o[0] in "DRT" for st in obs["steps"] for o in st["out"]): return None
-        return tuple(st["in"] for st in obs["steps"])
+        return (bool(case.get("unconnected")),) + tuple(st["in"] for st in obs["steps"])
 
     def branches(self, case, obs):
         b = []
